@@ -207,7 +207,9 @@ fn transform(
             ));
         }
 
-        for index in 0..n {
+        // Differences for all operands: the unsuccessful ones (NaN) may
+        // be anywhere in the set, not just at the end
+        for index in 0..operands.len() {
             operands[index] = operands[index] - buffer[index];
         }
 
